@@ -1351,12 +1351,17 @@ def search(ctx: core.Ctx):
             if key not in seen and d["case"].get("scenario"):
                 seen.add(key)
                 pri.append(("search", d["case"]["kind"], d["case"]["scenario"], {"dfs": 3, "max": 3000}))
-        step = 200
+        import time
+        step = 100
         allj = pri[:20] + [("search." + s, k, sc, m) for s, k, sc, m in _commit_jobs(ctx, True)] + \
             [("search." + s, k, sc, m) for s, k, sc, m in jobs]
+        deadline = time.time() + (1500 if ctx.thorough else 600)
         for i in range(0, len(allj), step):
             _run_jobs(ctx, pool, allj[i:i + step], order)
             if ctx.oracle_failures:
+                return
+            if time.time() > deadline:
+                ctx.notes.append(f"search stopped at its time budget after {i + step} of {len(allj)} scenarios")
                 return
     finally:
         pool.close()
